@@ -34,6 +34,8 @@ type fieldDesc struct {
 	Tagged  bool     `json:"tagged"`
 	TagName string   `json:"tagname"`
 	Opts    []string `json:"opts"`
+	// Embedded: an anonymous field of the extension struct
+	Embedded bool `json:"embedded,omitempty"`
 }
 
 type farmType struct {
